@@ -48,6 +48,9 @@ class ZONEINFO(TZProvider):
         except ValueError:
             # ValueError: ZoneInfo keys may not be absolute paths, got: /Europe/CUSTOM
             pass
+        except OSError:
+            # the name of a directory of the tz database (Europe), a name too long for a file
+            pass
 
     def knows_timezone_id(self, id: str) -> bool:
         """Whether the timezone is already cached by the implementation."""
